@@ -20,7 +20,8 @@ CONSTANTS Mode,        \* "pregel" | "dag" | "wf"
           D,           \* policies are functions of min(depth, D)
           MaxMarks,    \* |before| + |after| + |rerun| <= MaxMarks
           AllowRerun, AllowFail, AllowMulti,
-          MaxChoice    \* set of max-step settings (0 = default) for pregel
+          MaxChoice,   \* set of max-step settings (0 = default) for pregel
+          MaxEnds      \* branches have 2..MaxEnds targets
 
 AllNames == <<"a", "b", "c", "d">>
 Nodes == {AllNames[i] : i \in 1..N}
@@ -38,7 +39,7 @@ PairOK(s, d) == /\ ~(s = START /\ d = END)
 EdgeU == {e \in Src \X Dst \X Kinds : PairOK(e[1], e[2])}
 ERank(e) == (Ord(e[1]) * 10 + Ord(e[2])) * 3 + KindRank(e[3])
 \* candidate branches
-EndSets == {E \in SUBSET Dst : Cardinality(E) \in {2, 3}}
+EndSets == {E \in SUBSET Dst : Cardinality(E) \in 2..MaxEnds}
 BranchU == {b \in [from : Src, ends : EndSets, multi : IF AllowMulti THEN BOOLEAN ELSE {FALSE}] :
               /\ (Acyclic => \A e \in b.ends : Ord(b.from) < Ord(e))
               /\ (Cardinality(b.ends) = 3 => ~b.multi)}
